@@ -20,6 +20,29 @@ pub struct Case {
     pub typed: bool,
     pub untyped: bool,
     pub since_off: Option<u32>,
+    /// REPLAY ta FOR ctx SINCE <t> USING at: narrowing by the payload time field `at` of type ta (bound = AT_BASE + n * 1800)
+    #[serde(default)]
+    pub since_using: Option<u32>,
+}
+
+const AT_BASE: i64 = 1_700_000_000;
+
+/// the shared simple types, with a payload time field on the first one (its values are unrelated to the store clock)
+fn c04_types() -> Vec<TypeDef> {
+    let mut t = simple_types();
+    t[0].fields.push(FieldDef { name: "at".into(), ty: FT::Datetime, opt: false, alias: "datetime".into() });
+    t
+}
+
+fn c04_ev(n_types: usize, n_ctx: usize) -> BoxedStrategy<Ev> {
+    (simple_ev(n_types, n_ctx), 0i64..6)
+        .prop_map(|(mut e, a)| {
+            if e.ty == 0 {
+                e.vals.push(json!(AT_BASE + a * 1800));
+            }
+            e
+        })
+        .boxed()
 }
 
 #[derive(Clone, Copy)]
@@ -31,10 +54,10 @@ struct Excl {
 }
 
 fn case_strategy(tier: Tier, ex: Excl) -> BoxedStrategy<Case> {
-    (1usize..=2, 1usize..=3, 1usize..=3, 2usize..=4, 1usize..=2, 2usize..=4, prop::option::weighted(0.3, 0u32..4))
-        .prop_flat_map(move |(shards, epz, ff, spm, n_types, n_ctx, since_off)| {
+    (1usize..=2, 1usize..=3, 1usize..=3, 2usize..=4, 1usize..=2, 2usize..=4, prop::option::weighted(0.3, 0u32..4), prop::option::weighted(0.4, 0u32..7))
+        .prop_flat_map(move |(shards, epz, ff, spm, n_types, n_ctx, since_off, since_using)| {
             let cfg = DbConfig { shard_count: shards, event_per_zone: epz, fill_factor: ff, segments_per_merge: spm, ..DbConfig::default() };
-            let ev = simple_ev(n_types, n_ctx);
+            let ev = c04_ev(n_types, n_ctx);
             let op = prop_oneof![
                 30 => ev.prop_map(Op::Store),
                 3 => (0u32..4).prop_map(Op::Clock),
@@ -44,9 +67,9 @@ fn case_strategy(tier: Tier, ex: Excl) -> BoxedStrategy<Case> {
                 1 => Just(Op::Restart),
                 4 => Just(Op::Check),
             ];
-            (Just(cfg), Just(n_types), Just(n_ctx), prop::collection::vec(op, 6..=tier.pick(40, 70)), Just(since_off))
+            (Just(cfg), Just(n_types), Just(n_ctx), prop::collection::vec(op, 6..=tier.pick(40, 70)), Just(since_off), Just(since_using))
         })
-        .prop_map(move |(cfg, n_types, n_ctx, ops, since_off)| Case { cfg, types: simple_types()[..n_types].to_vec(), n_ctx, ops, typed: true, untyped: !ex.untyped || n_types == 1, since_off })
+        .prop_map(move |(cfg, n_types, n_ctx, ops, since_off, since_using)| Case { cfg, types: c04_types()[..n_types].to_vec(), n_ctx, ops, typed: true, untyped: !ex.untyped || n_types == 1, since_off, since_using })
         .boxed()
 }
 
@@ -74,6 +97,9 @@ fn check_point(w: &mut World, c: &Case, rep: &mut CaseReport, ex: Excl, what: &s
     for cx in 0..c.n_ctx {
         let name = ctx_name(cx);
         let mut variants: Vec<(String, Option<usize>, Option<u64>)> = vec![];
+        // SINCE .. USING <payload time field>: judged on the payload value, not on the store time
+        let at_idx = c.types[0].fields.iter().position(|f| f.name == "at");
+        let mut using_bound: Option<i64> = None;
         if c.untyped {
             variants.push((format!("REPLAY FOR {} RETURN [k]", name), None, None));
         }
@@ -86,12 +112,27 @@ fn check_point(w: &mut World, c: &Case, rep: &mut CaseReport, ex: Excl, what: &s
             let ts = chrono::DateTime::from_timestamp((base + off as u64) as i64, 0).unwrap().to_rfc3339_opts(chrono::SecondsFormat::Secs, true);
             variants.push((format!("REPLAY {} FOR {} SINCE \"{}\" RETURN [k]", c.types[0].name, name, ts), Some(0), Some(base + off as u64)));
         }
-        for (q, ty, since) in variants {
+        if let (Some(n), Some(_)) = (c.since_using, at_idx) {
+            let bound = AT_BASE + n as i64 * 1800;
+            let ts = chrono::DateTime::from_timestamp(bound, 0).unwrap().to_rfc3339_opts(chrono::SecondsFormat::Secs, true);
+            variants.push((format!("REPLAY {} FOR {} SINCE \"{}\" USING at RETURN [k]", c.types[0].name, name, ts), Some(0), None));
+            using_bound = Some(bound);
+        }
+        let n_variants = variants.len();
+        for (vi, (q, ty, since)) in variants.into_iter().enumerate() {
+            let by_payload_time = using_bound.filter(|_| vi + 1 == n_variants);
+            if by_payload_time.is_some() {
+                rep.label("replay:since-using-payload-time");
+            }
             let want: Vec<i64> = w
                 .model
                 .events
                 .iter()
                 .filter(|e| e.ctx == name && ty.map(|t| e.ty == t).unwrap_or(true) && since.map(|s| e.secs.unwrap_or(0) >= s).unwrap_or(true))
+                .filter(|e| match (by_payload_time, at_idx) {
+                    (Some(b), Some(ai)) => e.vals.get(ai).and_then(|v| v.as_i64()).map(|a| a >= b).unwrap_or(false),
+                    _ => true,
+                })
                 .map(|e| e.k)
                 .collect();
             for attempt in 0..2 {
@@ -187,7 +228,7 @@ pub fn run(ctx: &Ctx) -> i32 {
     let mut report = Report::new(
         "C04",
         "exploration",
-        "generated (config, 1-2 types, 2-4 contexts, 6-70 ops of STORE / clock / FLUSH / barrier / compaction / restart / check); at every check point (quiescent) REPLAY FOR ctx, REPLAY <type> FOR ctx and REPLAY ... SINCE are issued twice for every context and the sequence of k must equal the model's apply order of that context (membership exact, order exact). Non-trivial: a context with >= 2 events spread over >= 2 tiers (memory + segment, or several segments).",
+        "generated (config, 1-2 types, 2-4 contexts, 6-70 ops of STORE / clock / FLUSH / barrier / compaction / restart / check); at every check point (quiescent) REPLAY FOR ctx, REPLAY <type> FOR ctx, REPLAY ... SINCE and REPLAY ... SINCE .. USING <payload time field> are issued twice for every context and the sequence of k must equal the model's apply order of that context (membership exact, order exact). Non-trivial: a context with >= 2 events spread over >= 2 tiers (memory + segment, or several segments).",
     );
     report.assumptions = vec!["the scheduling of the concurrent in-memory and on-disk streams is sampled by repetition, not enumerated".into()];
     replay_known(ctx, &stats, &mut report, &replay);
